@@ -1,3 +1,16 @@
--- This module serves as the root of the `RedbModel` library.
--- Import modules here that should be built as part of the library.
-import RedbModel.Basic
+-- root of the library: every property module (and through them all models and lemmas)
+import RedbModel.Props.C02
+import RedbModel.Props.C04
+import RedbModel.Props.C05
+import RedbModel.Props.C06
+import RedbModel.Props.C07
+import RedbModel.Props.C09
+import RedbModel.Props.C10
+import RedbModel.Props.C11
+import RedbModel.Props.C13
+import RedbModel.Props.C14
+import RedbModel.Props.C15
+import RedbModel.Props.C17
+import RedbModel.Props.C18
+import RedbModel.Props.Life
+import RedbModel.Model.Format
